@@ -66,7 +66,7 @@ Proof.
   symmetry. apply (Hpar _ ltac:(lia) Hst).
 Qed.
 
-Lemma K_inv : forall g d0 x, Inv c BPh HPh HDh RJh g (outside c d0) d0 x -> TaskInvH c H x.
+Lemma K_inv : forall g d0 x, Inv c True BPh HPh HDh RJh g (outside c d0) d0 x -> TaskInvH c H x.
 Proof.
   intros g d0 x (_ & [(p & _ & [Hwp Hbp] & E)|(p & bs & _ & _ & [Hwp Hbp] & E)] & _);
     (eexists; split; [exact E|split; assumption]).
@@ -80,8 +80,8 @@ Lemma hist_all : forall g d s,
   /\ TaskInvH c H (r_db (step c s d)).
 Proof.
   intros g d s Hpv Hw Hon Ht.
-  destruct (step_all c Gh BPh HPh HDh RJh Hc Gh_ok Gh_bp Gh_hp Gh_hd reorg_justified g d s Hpv
-                     (conj Hw Hon) Ht) as (A & B & _).
+  destruct (step_all c Gh (fun _ => True) True BPh HPh HDh RJh Hc Gh_ok Gh_bp Gh_hp Gh_hd (fun _ _ => I) reorg_justified g d s Hpv
+                     (conj Hw Hon) (Forall_True s) Ht) as (A & B & _).
   split; [|eapply K_inv; exact B]. eapply Forall_impl; [|exact A]. intros e. apply K_inv.
 Qed.
 
@@ -296,10 +296,10 @@ Lemma below_fork : forall p0 q0 d s,
   /\ exists q, pv c (r_db (step c s d)) = render c (p0 ++ q).
 Proof.
   intros p0 q0 d s Hpv Hw Hon Hst Ht.
-  destruct (step_all c (node_ans true H) (in_history H) (HPh H) HDh (RJh H) Hc (Gh_ok H HH)
-                     (Gh_bp H HH) (Gh_hp H) (Gh_hd H) (reorg_justified c H HH)
-                     (p0 ++ q0) d s Hpv (conj Hw Hon) Ht) as (A & B & _).
-  assert (K : forall x, Inv c (in_history H) (HPh H) HDh (RJh H) (p0 ++ q0) (outside c d) d x ->
+  destruct (step_all c (node_ans true H) (fun _ => True) True (in_history H) (HPh H) HDh (RJh H) Hc (Gh_ok H HH)
+                     (Gh_bp H HH) (Gh_hp H) (Gh_hd H) (fun _ _ => I) (reorg_justified c H HH)
+                     (p0 ++ q0) d s Hpv (conj Hw Hon) (Forall_True s) Ht) as (A & B & _).
+  assert (K : forall x, Inv c True (in_history H) (HPh H) HDh (RJh H) (p0 ++ q0) (outside c d) d x ->
                         exists q, pv c x = render c (p0 ++ q)).
   { intros x (_ & [(p & Hu & _ & E)|(p & bs & Hu & _ & _ & E)] & _);
       destruct (unw_keeps_stable H _ _ Hu p0 q0 eq_refl Hst) as (q & ->).
